@@ -606,13 +606,17 @@ def test_files_considered(ctx, cr):
     makes `cfn-guard test -t specs.JSON` skip the file and exit 0."""
     rule = "R-C06-test-files-considered"
     EX = "<commands::test::Test as commands::Executable>::execute"
-    keys = [k for k in cr.fns if k.startswith(EX + "::{closure")]
+    from engine import flow
+    # the filter may be a closure of execute, a private helper it calls, or a private fn item of the module handed to get_files_with_filter
+    keys = sorted(set([k for k in flow.unit_functions(cr, EX, ("commands::test",), depth=2) if k != EX] if EX in cr.fns else []) |
+                  set(k for k, fx in cr.fns.items() if k.startswith("commands::test::") and "::tests::" not in k and not fx.get("file", "").endswith("_tests.rs")
+                      and fx.get("kind") in ("fn", "closure")))
     filt = [k for k in keys if any(M.norm_path(t["fn"].get("path", "")).endswith("<impl str>::ends_with") or "ends_with" in M.norm_path(t["fn"].get("path", "")) for bi, t in M.iter_calls(cr.fns[k]))]
     if not filt:
         ctx.lost(rule, rule + ":filter", "the suffix filter closure of Test::execute (no ends_with test found)")
         return
-    roots = set(k.split("::{closure")[0] + "::{closure" + k.split("::{closure")[1] for k in filt)
-    unit = [k for k in keys if any(k.startswith(r) for r in roots)]
+    roots = set((k.split("::{closure")[0] + "::{closure" + k.split("::{closure")[1]) if "::{closure" in k else k for k in filt)
+    unit = [k for k in cr.fns if any(k == r or k.startswith(r + "::{closure") or k.startswith(r) and "::{closure" in r for r in roots)]
     got = suffix_literals(cr, unit)
     missing, extra = TEST_DATA_SUFFIXES - got, got - TEST_DATA_SUFFIXES
     ctx.ob(rule, rule + ":suffixes", not missing, ("the --test-data filter no longer accepts %s (accepts %s): such a spec file is silently skipped and its failed expectations do not reach the exit code" % (sorted(missing), sorted(got))) if missing
